@@ -559,11 +559,14 @@ Definition opt_apply (b : bool) (fn : state -> state) (s : state) : state := if 
 
 (* model prediction used by the harness: which observable fields differ, after Execute's preparation,
    between the reused interpreter (state g, ResetVars if rv, ResetRand if rr) and a new one *)
+Inductive prediction := PDiff (l : list field) | PError | PUnmodelled.
+Definition is_unmodelled (e : option cfgerr) : bool := match e with Some EUnmodelled => true | _ => false end.
 Definition predict_diff (sv : setvars) (e : envt) (pc : progconst) (en : entry) (c : config)
-           (rv rr : bool) (g : state) : option (list field) :=
+           (rv rr : bool) (g : state) : prediction :=
   let r := m_prepare sv e en c (opt_apply rv m_resetVars (opt_apply rr (m_resetRand e) g)) in
   let f := m_prepare sv e en c (m_newInterp e pc) in
+  if is_unmodelled (snd r) || is_unmodelled (snd f) then PUnmodelled else
   match snd r, snd f with
-  | None, None => Some (diff_on (obs_fields en) (fst r) (fst f))
-  | _, _ => None
+  | None, None => PDiff (diff_on (obs_fields en) (fst r) (fst f))
+  | _, _ => PError
   end.
